@@ -146,10 +146,19 @@ void exec_c21(const Plan& p, Ctx& ctx) {
         ctx.probe(accepted ? "accepted" : "rejected");
         if (accepted && !admissible)
             ctx.violate(std::string("C21.inadmissible_accepted.") + kind_name[kind], fmt("an announce with defect '%s' was accepted (reputation %d -> %d)", kind_name[kind], rep_before, rep_after));
-        if (!accepted && !(before == after))
-            ctx.violate("C21.state_changed_on_rejected", fmt("a rejected announce ('%s') changed the node's state for the announced chunk (manifest %s, shard record %s, contact %s, pending fetch %s)", kind_name[kind],
-                                                            before.manifest == after.manifest ? "same" : "changed", before.shard_exp == after.shard_exp ? "same" : "changed",
-                                                            before.contact_exp == after.contact_exp ? "same" : "changed", before.pending == after.pending ? "same" : "changed"));
+        // A rejected announce must not add or extend anything. The node's own periodic work runs meanwhile and may legitimately
+        // take things away (a pending fetch that ran out of attempts, a record whose re-publication carries the remaining,
+        // i.e. shorter, lifetime): only additions and extensions are attributed to the announce.
+        if (!accepted) {
+            const bool manifest_changed = before.manifest != after.manifest && !after.manifest.empty();
+            const bool shards_extended = after.shard_exp > before.shard_exp;
+            const bool contact_extended = after.contact_exp > before.contact_exp;
+            const bool fetch_created = after.pending && !before.pending;
+            if (!(before == after) && !(manifest_changed || shards_extended || contact_extended || fetch_created)) ctx.probe("state_shrank_during_a_rejected_announce_not_judged");
+            if (manifest_changed || shards_extended || contact_extended || fetch_created)
+                ctx.violate("C21.state_changed_on_rejected", fmt("a rejected announce ('%s') changed the node's state for the announced chunk (manifest %s, shard record %s, contact %s, pending fetch %s)", kind_name[kind],
+                                                                manifest_changed ? "changed" : "same", shards_extended ? "extended" : "same", contact_extended ? "extended" : "same", fetch_created ? "created" : "same"));
+        }
         // throttle over the history of this peer (conservative with respect to handling-time uncertainty)
         auto& h = history[static_cast<std::size_t>(pi)];
         if (accepted) {
